@@ -148,9 +148,105 @@ class _CanonCompare(ast.NodeTransformer):
         return node
 
 
+def _collect_signatures(trees: Dict[str, ast.AST]) -> Dict[str, List[str]]:
+    """Positional parameter names of package callables that a call site can be matched to by
+    name alone: module-level functions ("f"), methods (".m": every class that defines the name
+    agrees on the parameter list; without self) and classes ("C": parameters of __init__).
+    Callables with *args, positional-only parameters or decorators that change the call
+    (staticmethod / classmethod / property / setters) are left out."""
+    seen: Dict[str, List[Optional[List[str]]]] = {}
+
+    def params(f: ast.FunctionDef, drop_self: bool) -> Optional[List[str]]:
+        a = f.args
+        if a.vararg or a.posonlyargs:
+            return None
+        names = [x.arg for x in a.args]
+        return names[1:] if drop_self else names
+    for tree in trees.values():
+        for node in ast.walk(tree):
+            if isinstance(node, ast.ClassDef):
+                for f in node.body:
+                    if not isinstance(f, ast.FunctionDef):
+                        continue
+                    deco = [norm(d) for d in f.decorator_list]
+                    if any(d in ("staticmethod", "classmethod", "property") or d.endswith(".setter")
+                           or d.endswith(".deleter") for d in deco):
+                        seen.setdefault("." + f.name, []).append(None)
+                        continue
+                    seen.setdefault("." + f.name, []).append(params(f, True))
+                    if f.name == "__init__":
+                        seen.setdefault(node.name, []).append(params(f, True))
+        for f in tree.body:
+            if isinstance(f, ast.FunctionDef):
+                seen.setdefault(f.name, []).append(None if f.decorator_list else params(f, False))
+    out = {}
+    for k, v in seen.items():
+        if any(x is None for x in v):
+            continue
+        if all(x == v[0] for x in v):
+            out[k] = v[0]
+    return out
+
+
+class _CanonCalls(ast.NodeTransformer):
+    """One spelling for the arguments of calls to package callables: as many leading
+    parameters as possible are passed positionally (`f(a, y=b)` is read as `f(a, b)`), the rest
+    stay keywords.  A rule that looks at "the third argument" or "the argument called x" then
+    sees the same thing whatever the author wrote (rules bind by name through
+    Program.bound_args)."""
+
+    def __init__(self, sigs: Dict[str, List[str]], module_funcs: Set[str]):
+        self.sigs = sigs
+        self.module_funcs = module_funcs
+
+    def signature_of(self, node: ast.Call) -> Optional[List[str]]:
+        f = node.func
+        if isinstance(f, ast.Name):
+            if f.id in self.module_funcs and f.id in self.sigs:
+                return self.sigs[f.id]
+            return None
+        if isinstance(f, ast.Attribute) and not (isinstance(f.value, ast.Name)
+                                                 and f.value.id in ("np", "numpy", "scipy", "tn", "os",
+                                                                    "math", "integrate", "linalg")):
+            return self.sigs.get("." + f.attr)
+        return None
+
+    def visit_Call(self, node):
+        self.generic_visit(node)
+        if any(isinstance(a, ast.Starred) for a in node.args):
+            return node
+        params = self.signature_of(node)
+        if params is None or len(node.args) > len(params):
+            return node
+        kws = {k.arg: k for k in node.keywords if k.arg is not None}
+        moved = []
+        for name in params[len(node.args):]:
+            if name in kws:
+                moved.append(kws[name])
+            else:
+                break
+        if not moved:
+            return node
+        node.args = list(node.args) + [k.value for k in moved]
+        node.keywords = [k for k in node.keywords if k not in moved]
+        return node
+
+
+_CURRENT: List["Program"] = []
+
+
+def kw_of(call: ast.Call) -> Dict[str, ast.AST]:
+    """Arguments of `call` by parameter name for the program loaded last (positional arguments
+    of package callables are bound through their signature), else the keywords as written."""
+    if _CURRENT:
+        return _CURRENT[-1].bound_args(call)
+    return {k.arg: k.value for k in call.keywords if k.arg}
+
+
 class Program:
     def __init__(self, repo_root: str):
         self.root = os.path.abspath(repo_root)
+        _CURRENT.append(self)
         self.modules: Dict[str, Module] = {}
         self.units: Dict[str, Unit] = {}
         self.classes: Dict[str, ClassInfo] = {}
@@ -183,6 +279,13 @@ class Program:
                 m = Module(modname, short, rel, tree, src)
                 self._index_imports(m)
                 self.modules[modname] = m
+        # one spelling for the arguments of calls to package callables
+        self.signatures = _collect_signatures({n: m.tree for n, m in self.modules.items()})
+        for m in self.modules.values():
+            funcs = {f.name for f in m.tree.body if isinstance(f, ast.FunctionDef)}
+            funcs |= {k for k, v in m.imports.items() if v.startswith(PKG + ".")}
+            funcs |= {c.name for c in ast.walk(m.tree) if isinstance(c, ast.ClassDef)}
+            m.tree = _CanonCalls(self.signatures, funcs).visit(m.tree)
         if len(self.modules) < MIN_MODULES:
             raise AnalysisError(
                 f"only {len(self.modules)} modules parsed under {PKG}/ "
@@ -245,6 +348,22 @@ class Program:
                     visit(child, prefix, cls, parent)
 
         visit(m.tree, "", None, None)
+
+    def bound_args(self, call: ast.Call) -> Dict[str, ast.AST]:
+        """Arguments of a call to a package callable by parameter name ({} if the callee's
+        signature is not known by name)."""
+        f = call.func
+        key = f.id if isinstance(f, ast.Name) else ("." + f.attr if isinstance(f, ast.Attribute) else None)
+        params = self.signatures.get(key) if key else None
+        out: Dict[str, ast.AST] = {}
+        if params is not None:
+            for i, a in enumerate(call.args):
+                if i < len(params) and not isinstance(a, ast.Starred):
+                    out[params[i]] = a
+        for k in call.keywords:
+            if k.arg:
+                out[k.arg] = k.value
+        return out
 
     # --------------------------------------------------------------- lookups
     def module(self, short: str) -> Module:
